@@ -1,22 +1,143 @@
+import concurrent.futures as _cf
+import os as _os
+import subprocess as _sp
+
+# ---- sizes of the deterministic block tables (must mirror the tables in the .cpp files; the harness counts
+# ---- "skip.beyond_exhaustive_table" for any index past a table, and the floors below pin the block counts)
+_P97 = [2, 3, 5, 7, 11, 13, 17, 19, 23, 29, 31, 37, 41, 43, 47, 53, 59, 61, 67, 71, 73, 79, 83, 89, 97]
+
+
+def _zp_blocks(pmax):      # c10_zp.cpp: (3p+1) operator + (6p+1) shared-element + p Field_Zp blocks per prime, 13+7 Z_2 blocks
+    return sum(10 * p + 2 for p in _P97 if p <= pmax) + 20
+
+
+def _zpc_blocks(pmax):     # c10_zpc_small.cpp: 6p+1 blocks per prime
+    return sum(6 * p + 1 for p in _P97 if p <= pmax)
+
+
+_MS_PRODUCTS = [2, 6, 15, 5, 30, 35, 11, 105, 210]   # c10_msmall.cpp kExhRanges: 2(6P+1) + (3P+1) blocks each
+_MG_PRODUCTS = [2, 6, 15, 30]                        # c10_mgmp.cpp kExhRanges: 3(6P+1) + P blocks each
+_ms = lambda n: sum(15 * P + 3 for P in _MS_PRODUCTS[:n])
+_mg = lambda n: sum(19 * P + 3 for P in _MG_PRODUCTS[:n])
+_ALL_SETS = 6893           # runs of >= 2 consecutive primes with product < 2^32
+
+ZPQ, ZPT = _zp_blocks(31), _zp_blocks(97)        # 1642, 10670
+ZCQ, ZCT = _zpc_blocks(31), _zpc_blocks(61)      # 971, 3024
+MSQ, MST = _ms(7), _ms(9)                        # 1581, 6312
+MGQ, MGT = _mg(3), _mg(4)                        # 446, 1019
+
+# ---- optional auxiliary evidence: compile-time refusals (static_assert) checked by negative compile probes
+_PROBES = [
+    # (name, must_compile, code)
+    ("control_Zp_5", True, "#include <gudhi/Fields/Zp_field.h>\nGudhi::persistence_fields::Zp_field_element<5> x(3);"),
+    ("Zp_0", False, "#include <gudhi/Fields/Zp_field.h>\nGudhi::persistence_fields::Zp_field_element<0> x(3);"),
+    ("Zp_1", False, "#include <gudhi/Fields/Zp_field.h>\nGudhi::persistence_fields::Zp_field_element<1> x(3);"),
+    ("Zp_4", False, "#include <gudhi/Fields/Zp_field.h>\nGudhi::persistence_fields::Zp_field_element<4> x(3);"),
+    ("Zp_9", False, "#include <gudhi/Fields/Zp_field.h>\nGudhi::persistence_fields::Zp_field_element<9> x;"),
+    ("Zp_65535", False, "#include <gudhi/Fields/Zp_field.h>\nGudhi::persistence_fields::Zp_field_element<65535> x(3);"),
+    ("Zp_561", False, "#include <gudhi/Fields/Zp_field.h>\nGudhi::persistence_fields::Zp_field_element<561> x(3);"),
+    ("control_small_5_13", True, "#include <gudhi/Fields/Multi_field_small.h>\nGudhi::persistence_fields::Multi_field_element_with_small_characteristics<5,13> x(3);"),
+    ("small_4_4", False, "#include <gudhi/Fields/Multi_field_small.h>\nGudhi::persistence_fields::Multi_field_element_with_small_characteristics<4,4> x(3);"),
+    ("small_8_10", False, "#include <gudhi/Fields/Multi_field_small.h>\nGudhi::persistence_fields::Multi_field_element_with_small_characteristics<8,10> x(3);"),
+    ("small_7_5", False, "#include <gudhi/Fields/Multi_field_small.h>\nGudhi::persistence_fields::Multi_field_element_with_small_characteristics<7,5> x(3);"),
+    ("small_0_1", False, "#include <gudhi/Fields/Multi_field_small.h>\nGudhi::persistence_fields::Multi_field_element_with_small_characteristics<0,1> x;"),
+    ("gmp_4_4", False, "#include <gudhi/Fields/Multi_field.h>\nGudhi::persistence_fields::Multi_field_element<4,4> x(3);"),
+    ("gmp_7_5", False, "#include <gudhi/Fields/Multi_field.h>\nGudhi::persistence_fields::Multi_field_element<7,5> x(3);"),
+    ("gmp_0_1", False, "#include <gudhi/Fields/Multi_field.h>\nGudhi::persistence_fields::Multi_field_element<0,1> x;"),
+]
+
+
+def _extra(ctx):
+    """Negative compile probes: a non-prime compile-time characteristic must be rejected by the compiler.
+    Auxiliary evidence only (not a run-time observation); an accepted probe is reported as a violation of kind 'refuse'."""
+    d = _os.path.join(ctx["build"], "c10_probes")
+    _os.makedirs(d, exist_ok=True)
+
+    def one(pr):
+        name, must_compile, code = pr
+        src = _os.path.join(d, name + ".cpp")
+        with open(src, "w") as f:
+            f.write("#include <climits>\n#include <array>\n" + code + "\nint main() { return 0; }\n")
+        cmd = ["clang++-14", "-std=gnu++17", "-fsyntax-only", "-DNDEBUG"] + ctx["includes"] + [src]
+        p = _sp.run(cmd, stdout=_sp.PIPE, stderr=_sp.STDOUT)
+        out = p.stdout.decode("utf-8", "replace")
+        return name, must_compile, p.returncode == 0, ("static_assert" in out or "static assertion" in out), out[-600:]
+
+    with _cf.ThreadPoolExecutor(max_workers=4) as ex:
+        res = list(ex.map(one, _PROBES))
+    info = {}
+    for i, (name, must_compile, compiled, by_static_assert, tail) in enumerate(res):
+        info[name] = {"must_compile": must_compile, "compiled": compiled, "rejected_by_static_assert": by_static_assert}
+        bad = None
+        if must_compile and not compiled:
+            raise RuntimeError("C10 compile probe control %s does not compile:\n%s" % (name, tail))
+        if not must_compile and compiled:
+            bad = "non-prime compile-time characteristic accepted by the compiler"
+        elif not must_compile and not by_static_assert:
+            bad = "rejected, but not by the documented static_assert"
+        if bad:
+            ctx["agg"]["viol"].append({"kind": "oracle", "unit": "compile_probe", "config": "compile_probe", "case": i,
+                                       "check": "refuse.compile_time", "sig": "probe=" + name, "detail": bad + "\n" + tail,
+                                       "history": name})
+    ctx["info"]["compile_probes"] = info
+    ctx["agg"]["counters"]["probe.compile_time_refusals"] = sum(1 for v in info.values() if not v["must_compile"] and not v["compiled"])
+
+
+_GMP = ["-lgmpxx", "-lgmp"]
+
 SPEC = {
     "property": "C10",
-    "rule": "wip",
-    "assumptions": [],
+    "rule": "every public constructor / conversion / operator / named method of the 13 field classes is evaluated and compared with exact integer "
+            "arithmetic (__int128, mpz_class for the GMP classes) reduced with the mathematical non-negative remainder modulo p or the product "
+            "of the primes of the range; partial inverses are checked prime by prime against the statement (T = primes of Q where x is invertible, "
+            "value = x^-1 mod each prime of T and 0 mod the other primes of the range). A case is a block: (class, prime or range, first operand) "
+            "with the other operands running over the complete window [-3P,3P] (exhaustive configs, seed independent), or (class, prime / range) "
+            "with boundary-directed + seeded random operands (0,1,P-1,P,kP+-d, machine-word limits INT_MIN..ULONG_MAX, multiples of the primes of "
+            "the range, 2^100 for GMP), or one refused characteristic. non-trivial = block with >= 20 evaluations of which at least one needed a "
+            "reduction / an inverse / a partial inverse (or, for refusals, a composite / prime-free range), distinct by hash(block description, seed salt)",
+    "assumptions": [
+        "documented preconditions respected: signed machine-integer operands are only passed in a type that can hold the characteristic; the fused "
+        "methods of Zp_field_operators / Multi_field_operators_with_small_characteristics are documented 'not overflow safe' and only receive "
+        "triples whose exact value fits 32 bits; Multi_field_operators_with_small_characteristics only gets ranges whose product is <= 65535 "
+        "(its documentation requires product^2 to fit an unsigned int); partial-inverse arguments Q are sub-products of the range (Q >= 1)",
+        "inverse of 0 in a single-prime field is not requested; (partial) inverses of the multi-field operator classes are requested for reduced operands only",
+        "Field_Zp and pcoh::Multi_field receive reduced operands only (as the cohomology engine does), one init() per object",
+        "a prime above Field_Zp's documented maximum 46337 may either be refused or handled exactly",
+        "only the default Unsigned_integer_type (unsigned int) of the templated classes is instantiated",
+        "trusted: the oracle in harness/c10_fields/c10_common.h (__int128 arithmetic, trial-division primes), GMP, libstdc++",
+    ],
     "units": [
-        {"name": "zp", "src": ["c10_zp.cpp"], "variant": "asan",
-         "configs": {"zp_exhaustive": {"quick": 442, "thorough": 442}, "zp_boundary": {"quick": 18, "thorough": 18},
-                     "zp_random_prime": {"quick": 100, "thorough": 100}, "zp_refuse": {"quick": 300, "thorough": 300}}, "chunk": 1},
-        {"name": "zpc", "src": ["c10_zpc_small.cpp", "c10_zpc_big.cpp"], "variant": "asan",
-         "configs": {"zpc_exhaustive": {"quick": 252, "thorough": 971}, "zpc_boundary": {"quick": 11, "thorough": 44}}, "chunk": 1},
-        {"name": "msmall", "src": ["c10_msmall.cpp"], "variant": "asan",
-         "configs": {"ms_exhaustive": {"quick": 1581, "thorough": 6312}, "ms_fixed": {"quick": 13, "thorough": 52},
-                     "ms_all_ranges": {"quick": 300, "thorough": 6900}, "ms_random": {"quick": 300, "thorough": 3000}, "ms_refuse": {"quick": 150, "thorough": 600}}, "chunk": 4},
-        {"name": "mgmp", "src": ["c10_mgmp.cpp"], "variant": "asan", "libs": ["-lgmpxx", "-lgmp"],
-         "configs": {"mg_exhaustive": {"quick": 500, "thorough": 1000}, "mg_fixed": {"quick": 40, "thorough": 160},
-                     "mg_random": {"quick": 200, "thorough": 2000}, "mg_refuse": {"quick": 150, "thorough": 600}}, "chunk": 4},
-        {"name": "threads", "src": ["c10_tsan.cpp"], "variant": "tsan",
-         "configs": {"threads": {"quick": 16, "thorough": 64}}, "chunk": 2},
+        {"name": "zp", "src": ["c10_zp.cpp"], "variant": "asan", "chunk": 1,
+         "configs": {"zp_exhaustive": {"quick": ZPQ, "thorough": ZPT}, "zp_boundary": {"quick": 18, "thorough": 72},
+                     "zp_random_prime": {"quick": 120, "thorough": 3000}, "zp_refuse": {"quick": 320, "thorough": 2000}}},
+        {"name": "zpc", "src": ["c10_zpc_small.cpp", "c10_zpc_big.cpp"], "variant": "asan", "chunk": 1,
+         "configs": {"zpc_exhaustive": {"quick": ZCQ, "thorough": ZCT}, "zpc_boundary": {"quick": 11, "thorough": 110}}},
+        {"name": "msmall", "src": ["c10_msmall.cpp"], "variant": "asan", "chunk": 4,
+         "configs": {"ms_exhaustive": {"quick": MSQ, "thorough": MST}, "ms_fixed": {"quick": 13, "thorough": 130},
+                     "ms_all_ranges": {"quick": 300, "thorough": _ALL_SETS}, "ms_random": {"quick": 300, "thorough": 5000},
+                     "ms_refuse": {"quick": 150, "thorough": 1000}}},
+        {"name": "mgmp", "src": ["c10_mgmp.cpp"], "variant": "asan", "libs": _GMP, "chunk": 4,
+         "configs": {"mg_exhaustive": {"quick": MGQ, "thorough": MGT}, "mg_fixed": {"quick": 40, "thorough": 400},
+                     "mg_random": {"quick": 200, "thorough": 3000}, "mg_refuse": {"quick": 160, "thorough": 1000}}},
+        {"name": "threads", "src": ["c10_tsan.cpp"], "variant": "tsan", "chunk": 2,
+         "configs": {"threads": {"quick": 16, "thorough": 64}}},
+        # thorough only: the bulk of the exhaustive sub-spaces again under -O2 + UBSan (other code generation, signed overflow / shift checks)
+        {"name": "zp_u", "src": ["c10_zp.cpp"], "variant": "ubsan", "chunk": 1, "tiers": ["thorough"],
+         "configs": {"zp_exhaustive": {"thorough": ZPT}, "zp_boundary": {"thorough": 36}, "zp_random_prime": {"thorough": 2000}}},
+        {"name": "zpc_u", "src": ["c10_zpc_small.cpp", "c10_zpc_big.cpp"], "variant": "ubsan", "chunk": 1, "tiers": ["thorough"],
+         "configs": {"zpc_exhaustive": {"thorough": ZCT}, "zpc_boundary": {"thorough": 44}}},
+        {"name": "msmall_u", "src": ["c10_msmall.cpp"], "variant": "ubsan", "chunk": 4, "tiers": ["thorough"],
+         "configs": {"ms_exhaustive": {"thorough": MST}, "ms_all_ranges": {"thorough": _ALL_SETS}, "ms_random": {"thorough": 5000}, "ms_fixed": {"thorough": 52}}},
+        {"name": "mgmp_u", "src": ["c10_mgmp.cpp"], "variant": "ubsan", "libs": _GMP, "chunk": 4, "tiers": ["thorough"],
+         "configs": {"mg_exhaustive": {"thorough": MGT}, "mg_fixed": {"thorough": 200}, "mg_random": {"thorough": 2000}}},
     ],
     "floors": {"quick": {}, "thorough": {}},
+    "exhaustive": {"quick": False, "thorough": False},
+    "exhaustive_note": "complete enumeration only of these sub-spaces: (a) single-prime run-time classes (Zp_field_operators, Shared_Zp_field_element, "
+                       "Field_Zp, Z2 classes) for every prime p <= 31 (quick) / <= 97 (thorough) and Zp_field_element<p> for p <= 31 / <= 61: all operand "
+                       "pairs (triples for fused methods) in [-3p,3p] (Field_Zp: [0,p)); (b) small multi-fields with product 2,5,6,11,15,30,35 (thorough: also "
+                       "105, 210) and GMP multi-fields with product 2,6,15 (thorough: 30): all operands in [-3P,3P] and every sub-product Q; (c) thorough: every "
+                       "run of >= 2 consecutive primes with product < 2^32 as a range of the shared small multi-field (operands sampled). Everything else is sampled.",
+    "extra": _extra,
     "manifest": {"text": "wip", "note": "", "technique": ""},
 }
